@@ -938,4 +938,103 @@ Lemma consume_rep e :
   e_rep (consume e) = (if (e_rep e =? 1)%Z then -1 else if (1 <? e_rep e)%Z then e_rep e - 1 else e_rep e)%Z.
 Proof. reflexivity. Qed.
 
+(* ------------------------------------------------------------------ history level: registered, never called => reported *)
+Definition pending (name : str) (n : nat) (mk : mock) : Prop :=
+  (exists e, nth_error (m_exp mk) n = Some e /\ e_method e = name /\ e_total e = 0) /\
+  (forall c, In c (m_calls mk) -> c_method c <> name) /\ m_test mk = true.
+
+Lemma called_other name n mk m args : m <> name -> pending name n mk -> pending name n (fst (called mk m args)).
+Proof.
+  intros NE ((e & N & EM & ET) & CS & T). unfold called.
+  destruct (find_expected m args (m_exp mk) 0 false) as [[[i x]|] seen] eqn:F; simpl; [|repeat split; eauto].
+  pose proof (find_expected_sound (m_exp mk) m args 0 false i x) as S. rewrite F in S.
+  destruct (S eq_refl) as (j & -> & (Nx & Mx & _)). simpl in *.
+  assert (j <> n) as D.
+  { intros ->. rewrite N in Nx. injection Nx as <-. unfold e_matches in Mx.
+    apply andb_true_iff in Mx as [Mx _]. apply seqb_eq in Mx. congruence. }
+  repeat split; simpl.
+  - exists e. rewrite nth_upd_neq by exact D. auto.
+  - intros c Hc. apply in_app_or in Hc as [Hc|[<-|[]]]; [now apply CS | simpl; exact NE].
+  - exact T.
+Qed.
+
+Lemma call_method_state unroll s mk vs :
+  fst (call_method impl beh unroll s mk vs) = mk \/
+  exists args, fst (call_method impl beh unroll s mk vs) = fst (called mk (ms_name s) args).
+Proof.
+  unfold call_method. destruct (pack unroll s vs) as [p|]; [|now left]. right. exists p.
+  destruct (called mk (ms_name s) p) as [mk' [e|k|]]; simpl; try reflexivity.
+  destruct (run_runfn impl (e_run e) p); [|reflexivity].
+  destruct (ms_results s); [reflexivity|]. destruct (extract _ _ _ _ _ _). reflexivity.
+Qed.
+
+Definition calls_other (im : iface_model) (name : str) (o : op) : Prop :=
+  match o with
+  | OCall mi _ => forall s, nth_error (im_methods im) mi = Some s -> ms_name s <> name
+  | _ => True
+  end.
+
+Lemma step_pending im name n mk o : calls_other im name o -> pending name n mk ->
+  pending name n (fst (step impl beh im mk o)).
+Proof.
+  intros CO P. destruct o as [mi xs ss|mi vs|]; simpl.
+  - destruct (nth_error (im_methods im) mi) as [s|]; [|exact P].
+    destruct (expect (im_unroll im) s mk xs ss) as [mk'|] eqn:E; [|exact P]. simpl.
+    destruct (expect_registers _ _ _ _ _ _ E) as (EX & CA & TE).
+    destruct P as ((e & N & EM & ET) & CS & T). repeat split.
+    + exists e. rewrite EX. rewrite nth_error_app1; [auto | apply nth_error_Some; congruence].
+    + now rewrite CA.
+    + now rewrite TE.
+  - destruct (nth_error (im_methods im) mi) as [s|] eqn:NS; [|exact P].
+    destruct (call_method_state (im_unroll im) s mk vs) as [->|[args ->]]; [exact P|].
+    apply called_other; [apply (CO s NS) | exact P].
+  - exact P.
+Qed.
+
+Lemma run_ops_pending im name n : forall ops mk, Forall (calls_other im name) ops -> pending name n mk ->
+  pending name n (fst (run_ops impl beh im mk ops)).
+Proof.
+  induction ops as [|o ops IH]; intros mk F P; simpl; [exact P|].
+  inversion F as [|? ? Fo F']; subst.
+  pose proof (step_pending im name n mk o Fo P) as P1.
+  destruct (step impl beh im mk o) as [mk1 ob]. simpl in P1.
+  specialize (IH mk1 F' P1). destruct (run_ops impl beh im mk1 ops) as [mk2 obs]. exact IH.
+Qed.
+
+(* For every history: an expectation registered through EXPECT() on a mock on which that method had
+   not been called, and followed by any registrations / calls of other methods / cleanups, is
+   reported by the cleanup. *)
+Theorem cleanup_reports_never_called im mk0 mi s xs ss mk1 ops :
+  nth_error (im_methods im) mi = Some s -> m_test mk0 = true ->
+  (forall c, In c (m_calls mk0) -> c_method c <> ms_name s) ->
+  fst (step impl beh im mk0 (OExpect mi xs ss)) = mk1 -> mk1 <> mk0 ->
+  Forall (calls_other im (ms_name s)) ops ->
+  In (EvErrorf EAssert) (snd (snd (step impl beh im (fst (run_ops impl beh im mk1 ops)) OCleanup))).
+Proof.
+  intros NS T CS ST NEQ F. simpl in ST. rewrite NS in ST.
+  destruct (expect (im_unroll im) s mk0 xs ss) as [mk'|] eqn:E; simpl in ST; [subst mk'|congruence].
+  destruct (expect_registers _ _ _ _ _ _ E) as (EX & CA & TE).
+  set (e0 := fold_left (apply_setup (im_unroll im) s) ss (new_expectation (ms_name s) xs)) in *.
+  assert (P : pending (ms_name s) (length (m_exp mk0)) mk1).
+  { repeat split.
+    - exists e0. rewrite EX, nth_error_app_here. split; [reflexivity|].
+      destruct (fold_setup_keeps (im_unroll im) s ss (new_expectation (ms_name s) xs)) as [A _].
+      split; [exact A|]. unfold e0.
+      assert (G : forall e, e_total (fold_left (apply_setup (im_unroll im) s) ss e) = e_total e).
+      { clear. induction ss as [|su ss IH]; intros e; simpl; [reflexivity|]. rewrite IH.
+        destruct su; simpl; try reflexivity. destruct (ms_results s); reflexivity. }
+      rewrite G. reflexivity.
+    - rewrite CA. exact CS.
+    - rewrite TE. exact T. }
+  pose proof (run_ops_pending im (ms_name s) _ ops mk1 F P) as ((e & N & EM & ET) & CS' & T').
+  set (mk2 := fst (run_ops impl beh im mk1 ops)) in *.
+  destruct (cleanup_reports im mk2 T') as [R _]. cbv zeta in R.
+  assert (U : unmet mk2 e = true).
+  { apply unmet_spec. left. split; [exact ET|]. unfold was_called.
+    destruct (existsb _ (m_calls mk2)) eqn:X; [|reflexivity]. apply existsb_exists in X as (c & Hc & Hm).
+    apply andb_true_iff in Hm as [Hm _]. apply seqb_eq in Hm. exfalso. apply (CS' c Hc). congruence. }
+  destruct (R (ex_intro _ e (conj (nth_error_In _ _ N) U))) as [-> _].
+  apply in_or_app. right. now left.
+Qed.
+
 End Proofs.
